@@ -19,6 +19,8 @@ WEAK = {
                  "got < needed / tallied >= needed: exactly 2/3 accepted"),
     "LightCountsNil": (("CaseSoundLight",), "VerifyCommitLight skips only absent slots: nil-flag signatures tallied"),
     "NoDoubleSignCheck": (("CaseSoundTrusting",), "VerifyCommitLightTrusting without the seenVals check"),
+    "SeenByCommitSlotRange": (("CaseSoundTrusting",), "seenVals sized by len(commit.Signatures) but indexed by the trusted "
+                              "set's validator index: members with index >= commit length never remembered"),
     "NoBlockIDCheck": (("CaseSoundFull", "CaseSoundLight"), "blockID argument not compared with commit.BlockID"),
     "SignBytesIgnoreRound": (("CaseSoundFull", "CaseSoundLight", "CaseSoundTrusting"),
                              "canonical vote does not bind the round"),
@@ -263,12 +265,13 @@ def run(ctx):
                 "divisible by 3; per-slot kinds absent / valid / nil / garbage / signed-for-nil-flagged-commit / other block, "
                 "part-set header, height, round, chain, vote type, timestamp / wrong signer / foreign address / duplicated "
                 "member / unknown signer / unknown flag; frames: argument and commit height/blockID mismatches, zero block id, "
-                "other chain, short/long/rotated commits; max = floor(MaxTotalVotingPower/total)) is realised with real ed25519 keys and executed on the real "
+                "other chain, short/long/rotated commits, and FOREIGN commits of every length 1..n(+1) whose slots are absent / "
+                "unknown signer / a valid signature of ANY member, repeated at will; max = floor(MaxTotalVotingPower/total)) is realised with real ed25519 keys and executed on the real "
                 "VerifyCommit, VerifyCommitLight and VerifyCommitLightTrusting (11 trust levels at scaling 1, 5 at the others) "
                 "at power scalings %s plus one of %s chosen round-robin; plus %d seeded random sets of 1..8 "
                 "members with powers up to MaxTotalVotingPower tuned to sit at / next to a threshold, totals exactly at "
                 "MaxTotalVotingPower and hand-built sets just above it (panic exit), commits aligned / permuted / of other "
-                "membership. A run is one "
+                "membership / foreign (own length, one member repeated, preferably with index >= commit length). A run is one "
                 "(commit, arguments, concrete power vector); distinct by hash; non-trivial = a function got past the "
                 "argument checks or accepted" % (
                     {1: 10, 2: 21}[T["PVTier"]], "/".join(T["scales"]), "/".join(sorted(set(T["rot"]))), T["random"]),
